@@ -22,9 +22,9 @@ from fractions import Fraction
 from harness import core
 
 MANIFEST_ENTRY = {
-    "text": "Lean theorems C14_partial (closed form of both summary tables after the whole batch loop: a permutation of one row per (program, simulation) computed from that pair's own files, for every simulation count, both retention settings and every enumeration order of every directory scan), once_each, perm_invariant, own_files_only, retention_invariant, estimate_floor, estJoin_perm_invariant, cost_ratios, cost_once_each, batch_sizes_sum, batch_sizes_le_five, batch_sims_eq_range, yearly_shares_complete (the yearly shares of a closed record add up to its value, leap years included) prove the property for all program names that are not reserved; C14_counterexample shows the unrestricted statement false for a program whose name starts with the kept marker, C14_yearly_counterexample shows the yearly share of an open-ended record that starts after the latest recorded end date negative. The model is tied to the real SimulationManager batch loop, SummaryOutputManager, summary_outputs, summary_output_helpers, summary_output_mapper and batch_simulations by running them over generated program folders with os.scandir permuted independently per call (simulation counts 1..12 and beyond, both retention settings) and comparing both summary files and the folder contents after every batch and the cost summary at the end with the compiled model driven by the recorded listings; a direct oracle recomputes every statistic from the pair's own generated data and re-runs every world under a second enumeration order.",
+    "text": "Lean theorems over an executable model of the summary aggregation: C14_partial (for every program list without the two reserved names and every world the real code accepts, every simulation count, both retention settings and every enumeration order of every directory scan, the run completes and both summary tables are a permutation of one row per (program, simulation) computed from that pair's own files), guard_exact / C14_rejected (the run raises exactly when some pair wrote a timeseries / emissions / estimate file without data rows), runAll_closed_form, once_each, own_files_only, perm_invariant, retention_invariant, estimate_floor, estJoin_perm_invariant, cost_ratios, cost_once_each, concrete_mit_cell / concrete_cost_cell / cost_ratios_concrete (the two cost columns are the pair's own sum of mitigated emissions and sum of daily cost), batch_sizes_sum, batch_sizes_le_five, batch_sims_eq_range, yearly_shares_complete / window_complete / C14_yearly_partial (the yearly shares of frames of closed records add up to their values, leap years included). C14_counterexample, C14_counterexample_logs, C14_counterexample_zero_rows refute the unrestricted statement (program named kept..., program named Logs, a file without rows); C14_yearly_counterexample refutes share completeness for open-ended records. The model is tied to the real SimulationManager batch loops (debug and multiprocessing), SummaryOutputManager, summary_outputs, summary_output_helpers, summary_output_mapper and batch_simulations by running them over generated program folders with os.scandir permuted independently per call and comparing both summary files and the folder contents after every batch and the cost summary at the end with the compiled model driven by the recorded listings, and with the theorem-level run function on the same world; a direct oracle recomputes every statistic from the pair's own generated data and re-runs every world under a second enumeration order.",
     "design_ref": "DESIGN.md 5.14",
-    "note": "trusted: Lean kernel + propext/Classical.choice/Quot.sound; the hand-written model (tied by sampled correspondence, not proof); harness adapter and generators; pandas read_csv/to_csv, merge, groupby and NumPy's percentile as reference semantics (the percentile is an uninterpreted function of the column in the model and is evaluated with NumPy on the column the model names); numbers restricted to a grid on which float arithmetic is exact (CSV float round-trip drift of non-dyadic values is outside the model); row order inside a summary file is not modelled; multiprocessing mode runs the same batch loop and is not exercised separately",
+    "note": "trusted: Lean kernel + propext/Classical.choice/Quot.sound; the hand-written model (tied by sampled correspondence, not proof); harness adapter and generators; pandas read_csv/to_csv, merge, groupby and NumPy's percentile as reference semantics (the percentile is an uninterpreted function of the column in the model and is evaluated with NumPy on the column the model names); numbers restricted to a grid on which float arithmetic is exact (CSV float round-trip drift of non-dyadic values is outside the model); row order inside a summary file and the Summary Files switches are not modelled (one world per switch setting is compared per run); a rejected file stops the real run inside a call while the model only flags the call",
     "technique": "Lean 4 closed-form/permutation proofs over a directory-listing model + differential correspondence with the real aggregation code under permuted os.scandir + direct recomputation oracle",
 }
 
@@ -749,7 +749,7 @@ def run(ctx):
     for n in ns:
         for keep in ((True, False) if (not ctx.quick or n in (1, 5, 6, 10, 11, 12)) else (ctx.rng.random() < 0.5,)):
             specs.append({"n": n, "keep": keep})
-    for _ in range(ctx.pick(14, 300)):
+    for _ in range(ctx.pick(8, 280)):
         specs.append({})
     worlds = []
     for sp in specs:
